@@ -24,7 +24,7 @@ type c10Case struct {
 
 var (
 	c10Regs       = []string{"plain", "plain+1rotated", "plain+2rotated", "plain+empty-rotated", "public", "public-with-secret-hash", "confidential-empty-hash", "oidc-basic", "oidc-post", "oidc-none", "oidc-private_key_jwt", "oidc-client_secret_jwt", "oidc-unset", "special-chars"}
-	c10Transports = []string{"basic", "post", "both", "id-only", "nothing", "basic-malformed", "basic-unencoded", "assertion", "assertion-wrong-key", "assertion+basic", "basic-id-only+body-secret"}
+	c10Transports = []string{"basic", "post", "both", "id-only", "nothing", "basic-malformed", "basic-unencoded", "assertion", "assertion-wrong-key", "assertion+basic", "basic-id-only+body-secret", "assertion-expired", "assertion-not-yet-valid", "query-credentials"}
 	c10Secrets    = []string{"current", "rotated1", "rotated2", "wrong", "empty", "other-clients", "current-prefix", "current+suffix"}
 	c10Endpoints  = []string{"token/client_credentials", "token/password", "token/refresh_token", "token/authorization_code", "token/device_code", "token/jwt-bearer", "revoke", "par", "device_auth"}
 )
@@ -93,6 +93,15 @@ func c10Setup(c c10Case) (*World, fosite.Client, map[string]string) {
 	return w, cl, secrets
 }
 
+func c10AssertionAt(w *World, id, key, jti string, iat, nbf, exp time.Duration) string {
+	now := w.Now()
+	claims := map[string]any{"iss": id, "sub": id, "aud": TokenURL, "exp": now.Add(exp).Unix(), "iat": now.Add(iat).Unix(), "jti": jti}
+	if nbf != 0 {
+		claims["nbf"] = now.Add(nbf).Unix()
+	}
+	return signJWT(ecKey(key), "ES256", "ck-1", claims, nil)
+}
+
 func c10Assertion(w *World, id, key, jti string) string {
 	now := w.Now()
 	return signJWT(ecKey(key), "ES256", "ck-1", map[string]any{"iss": id, "sub": id, "aud": TokenURL, "exp": now.Add(5 * time.Minute).Unix(), "iat": now.Unix(), "jti": jti}, nil)
@@ -122,6 +131,14 @@ func c10Auth(w *World, c c10Case, id string, secrets map[string]string) Auth {
 		return Auth{Mode: "omit", Extra: url.Values{"client_assertion_type": {"urn:ietf:params:oauth:client-assertion-type:jwt-bearer"}, "client_assertion": {c10Assertion(w, id, "ec256b", "jti-attempt")}}}
 	case "assertion-wrong-key":
 		return Auth{Mode: "omit", Extra: url.Values{"client_assertion_type": {"urn:ietf:params:oauth:client-assertion-type:jwt-bearer"}, "client_assertion": {c10Assertion(w, id, "ec256a", "jti-attempt")}}}
+	case "assertion-expired":
+		// correctly signed with the registered key, but expired a minute ago
+		return Auth{Mode: "omit", Extra: url.Values{"client_assertion_type": {"urn:ietf:params:oauth:client-assertion-type:jwt-bearer"}, "client_assertion": {c10AssertionAt(w, id, "ec256b", "jti-attempt", -10*time.Minute, 0, -time.Minute)}}}
+	case "assertion-not-yet-valid":
+		return Auth{Mode: "omit", Extra: url.Values{"client_assertion_type": {"urn:ietf:params:oauth:client-assertion-type:jwt-bearer"}, "client_assertion": {c10AssertionAt(w, id, "ec256b", "jti-attempt", 0, 10*time.Minute, 20*time.Minute)}}}
+	case "query-credentials":
+		// client_id and client_secret travel in the URL query string of the POST request: neither HTTP Basic nor the body
+		return Auth{Mode: "omit", Query: url.Values{"client_id": {id}, "client_secret": {sec}}}
 	case "basic-id-only+body-secret":
 		// the id travels in a Basic header with an empty password, the secret in the body, no body client_id
 		a := BasicAuth(id, "")
@@ -141,6 +158,15 @@ func c10RefAuth(c c10Case) (ok bool, dc bool) {
 	public := c.Reg == "public" || c.Reg == "public-with-secret-hash" || c.Reg == "oidc-none"
 	viaBasic := c.Transport == "basic" || c.Transport == "both" || c.Transport == "basic-unencoded" || c.Transport == "assertion+basic"
 	viaPost := c.Transport == "post"
+	switch c.Transport {
+	case "assertion-expired", "assertion-not-yet-valid":
+		return false, false // not a valid assertion, whatever the registration
+	case "query-credentials":
+		if c.Reg == "public" || c.Reg == "public-with-secret-hash" || c.Reg == "oidc-none" {
+			return false, true // a public client is only identified: where the identifier may travel is not pinned
+		}
+		return false, false // the URL query is not a transport any authentication method permits
+	}
 	if c.Transport == "basic-id-only+body-secret" {
 		// split credentials. The Basic password is empty, so the header proves nothing. For registrations whose method
 		// does not permit a body secret (or no secret at all) processing the request is a violation; where post is a
@@ -298,7 +324,7 @@ func c10Run(c c10Case, res *WRes) {
 		succeeded = issued(o)
 	case c.Endpoint == "revoke":
 		o = w.Revoke(form.Get("token"), "", auth)
-		succeeded = o.GoErr == ""
+		succeeded = o.RevokeClass() == ""
 	case c.Endpoint == "par":
 		o = w.PAR(form, auth)
 		succeeded = o.Str("request_uri") != ""
@@ -320,7 +346,11 @@ func c10Run(c c10Case, res *WRes) {
 		return
 	}
 	if succeeded && !ok && !skipOK {
-		viol(fmt.Sprintf("C10/processed-without-valid-authentication/%s/reg=%s", c.Endpoint, c.Reg),
+		fp := fmt.Sprintf("C10/processed-without-valid-authentication/%s/reg=%s", c.Endpoint, c.Reg)
+		if c.Transport == "query-credentials" {
+			fp = fmt.Sprintf("C10/processed-with-credentials-from-the-url-query/%s/reg=%s", c.Endpoint, c.Reg)
+		}
+		viol(fp,
 			fmt.Sprintf("%s processed a request in the name of client registration %q although the presentation (%s, secret %s) does not authenticate it", c.Endpoint, c.Reg, c.Transport, c.Secret), "invalid_client / invalid_request", o.JSON)
 		return
 	}
@@ -336,9 +366,8 @@ func c10Run(c c10Case, res *WRes) {
 	}
 	if !succeeded && !ok && !skipOK {
 		// rejected: class and no token-table effects
-		if o.Err != "invalid_client" && o.Err != "invalid_request" && !(c.Endpoint == "revoke" && o.GoErr != "") {
-			// a later refusal (e.g. public client at client_credentials) is also a refusal; only the class is unexpected
-			res.note("refusal-class:" + o.Err)
+		if o.Err != "invalid_client" && o.Err != "invalid_request" {
+			viol(fmt.Sprintf("C10/refusal-class/%s/%s/%s", c.Endpoint, c.Transport, o.Err), fmt.Sprintf("a presentation that does not authenticate the client (%s, %s/%s) was refused as %q (HTTP %d), not as invalid_client / invalid_request", c.Reg, c.Transport, c.Secret, o.Err, o.Status), "invalid_client or invalid_request", o.JSON)
 		}
 		for _, call := range w.Store.Log[logStart:] {
 			switch call.Name {
